@@ -57,6 +57,28 @@ impl CheckRestrictions for Attrs {
     }
 }
 
+/// An element that looks like a hyperlink / reference: attributes `href`, `id`, `ref` with fragment values are ordinary data.
+#[derive(Debug, Default, Clone, PartialEq, YaSerialize, YaDeserialize)]
+#[yaserde(prefix = "p", namespaces = {"p" = "urn:zv:probe"}, rename = "Link")]
+pub struct Link {
+    #[yaserde(attribute = true, rename = "href")]
+    pub href: String,
+    #[yaserde(attribute = true, rename = "id")]
+    pub id: Option<String>,
+    #[yaserde(attribute = true, rename = "ref")]
+    pub reference: Option<String>,
+    #[yaserde(prefix = "p", rename = "title")]
+    pub title: String,
+}
+impl CheckRestrictions for Link {
+    fn check_restrictions(&self, r: Option<Rc<Restrictions>>) -> SoapResult<()> {
+        self.href.check_restrictions(r.clone())?;
+        self.id.check_restrictions(r.clone())?;
+        self.reference.check_restrictions(r.clone())?;
+        self.title.check_restrictions(r)
+    }
+}
+
 #[derive(Debug, Default, Clone, PartialEq, YaSerialize, YaDeserialize)]
 #[yaserde(prefix = "p", namespaces = {"p" = "urn:zv:probe"}, rename = "Mixed")]
 pub struct Mixed {
@@ -304,6 +326,7 @@ holders!(HAttrsB, HAttrsW, Attrs);
 holders!(HMixedB, HMixedW, Mixed);
 holders!(HNestedB, HNestedW, Nested);
 holders!(HOptRepB, HOptRepW, OptRep);
+holders!(HLinkB, HLinkW, Link);
 
 // flattened member: the holder writes the member's attributes on its own start tag and its children among its own
 macro_rules! flat_holders {
@@ -358,6 +381,7 @@ flat_holders!(FAttrsB, FAttrsW, Attrs);
 flat_holders!(FMixedB, FMixedW, Mixed);
 flat_holders!(FNestedB, FNestedW, Nested);
 flat_holders!(FOptRepB, FOptRepW, OptRep);
+flat_holders!(FLinkB, FLinkW, Link);
 
 // ---------------------------------------------------------------- recorder
 
@@ -579,7 +603,19 @@ pub fn run() {
         }
     }
 
+    let mut links = Vec::new();
+    for href in ["#intro", "#id1", "#", "", "http://zv.test/doc#part", "cid:part1", "id1"] {
+        for id in [None, Some("id1".to_string()), Some("#id1".to_string())] {
+            for reference in [None, Some("#id1".to_string())] {
+                for title in ["", "t", "é<&>"] {
+                    links.push(Link { href: href.into(), id: id.clone(), reference: reference.clone(), title: title.into() });
+                }
+            }
+        }
+    }
+
     probe_root(&mut rec, "text-only", &leaves);
+    probe_root(&mut rec, "reference-like-attributes", &links);
     probe_root(&mut rec, "restricted-leaf", &rleaves);
     probe_root(&mut rec, "attributes-only", &attrs);
     probe_root(&mut rec, "attributes+children", &mixed);
@@ -592,6 +628,9 @@ pub fn run() {
     probe_field::<Mixed, HMixedB, HMixedW>(&mut rec, "attributes+children", &mixed[..mixed.len().min(144)]);
     probe_field::<Nested, HNestedB, HNestedW>(&mut rec, "nested-two-levels", &nested[..nested.len().min(60)]);
     probe_field::<OptRep, HOptRepB, HOptRepW>(&mut rec, "optional+repeated", &optrep[..optrep.len().min(60)]);
+
+    probe_field::<Link, HLinkB, HLinkW>(&mut rec, "reference-like-attributes", &links);
+    probe_field::<Link, FLinkB, FLinkW>(&mut rec, "flattened:reference-like-attributes", &links);
 
     // the same values as a flattened member (signatures carry the position in the probe name)
     probe_field::<Attrs, FAttrsB, FAttrsW>(&mut rec, "flattened:attributes-only", &attrs[..attrs.len().min(96)]);
